@@ -670,8 +670,17 @@ fn random_op(rng: &mut Rng, with_random_files: bool) -> Op {
 
 fn random_line(rng: &mut Rng, field: bool) -> Vec<u8> {
     let alphabet: &[u8] = if field { b"abcXYZ019 .;:-_'()\t" } else { b"abcXYZ019 ,,.;:-_'()\t " };
-    let n = rng.below(9);
-    let mut v: Vec<u8> = (0..n).map(|_| *rng.pick(alphabet)).collect();
+    // mostly short; one in five is long enough to straddle the boundaries of read buffers of 64..1024 bytes
+    // (no letters in long lines: the tokenizer rejects runs of more than 40 letters even inside literals)
+    let long = rng.chance(1, 5);
+    let n = if long {
+        let base = *rng.pick(&[64u64, 128, 256, 512, 1024]);
+        base - 3 + rng.below(6)
+    } else {
+        rng.below(9)
+    };
+    let long_alphabet: &[u8] = if field { b"019.;:-_'()" } else { b"019 ,.;:-_'()" };
+    let mut v: Vec<u8> = (0..n).map(|_| *rng.pick(if long { long_alphabet } else { alphabet })).collect();
     if field {
         // blank-trimmed
         while v.first().is_some_and(|c| *c == b' ' || *c == b'\t') {
